@@ -1,11 +1,15 @@
 /- Driver commands for C03.
 Model level: `VALIDCLOSED`, `SMALLTRI`, `BUILDPATH`, `CLEANCOL` run Model/CleanUp.lean.
+`SEGSINT`, `DOSPLIT`, `FIXSI`, `CLEANCOLX`, `BUILDPATHS` run Model/SplitOp.lean in its double instantiation (`csF`, `isectF`,
+`adecF`) and, when all coordinates are small enough for the doubles to be exact, also in the exact instantiation the
+theorems are about; a disagreement between the two is reported instead of the answer.
 Spec level: `WELLFORMED` judges a real `Clipper64` solution against the text of property C03 with exact
 integer arithmetic. -/
 import ClipperVerif.Driver.Proto
 import ClipperVerif.Model.CleanUp
+import ClipperVerif.Model.SplitOp
 namespace Clipper.Driver.C03
-open Clipper Clipper.Proto Clipper.Model.CleanUp
+open Clipper Clipper.Proto Clipper.Model.CleanUp Clipper.Model.SplitOp
 
 /-! ### exact geometry used by the judgement -/
 
@@ -156,6 +160,29 @@ def showRingOpt : Option Ring → String
   | none => "disposed"
   | some r => showPath r
 
+/-! ### FixSelfIntersects / DoSplitOp -/
+
+/-- coordinates and length for which every double intermediate of `CrossProduct`, `Area(OutPt*)`, `AreaTriangle` is an
+exact integer below 2^53: |coord| ≤ 2^20 (terms ≤ 2^42), at most 1024 nodes -/
+def smallRing (r : Ring) : Bool :=
+  decide (r.length ≤ 1024) && r.all (fun p => decide (p.x.natAbs ≤ 2 ^ 20) && decide (p.y.natAbs ≤ 2 ^ 20))
+
+/-- fuel for the loop of `FixSelfIntersects`: enough unless the `DuplicateOp` branch runs more than `8n + 64` times -/
+def fsiDriverFuel (n : Nat) : Nat := fsiFuel n (8 * n + 64)
+
+def showFsi : FsiRes → String
+  | .outOfFuel k => s!"OUT-OF-FUEL dups={k}"
+  | .fault => "MODEL-FAULT"
+  | .done m sp _ => showRingOpt m ++ " " ++ showPaths sp
+
+def showSplitRes : Option SplitRes → String
+  | none => "MODEL-FAULT"
+  | some ⟨m, nr⟩ => showRingOpt m ++ " " ++ showPaths nr.toList
+
+/-- answer with the double instantiation; cross-check the exact one where doubles are exact -/
+def crossChecked (small : Bool) (f x : String) : String :=
+  if small && f != x then s!"FLOAT-INT-MISMATCH float: {f} | exact: {x}" else f
+
 def handle : String → Option (P String)
   | "WELLFORMED" => some cmdWellFormed
   | "VALIDCLOSED" => some do
@@ -176,6 +203,39 @@ def handle : String → Option (P String)
       match cleanCollinear pc (fun x => if needsFix x then fixAns else some x) r with
       | none => pure "OUT-OF-FUEL"
       | some res => pure (showRingOpt res)
+  -- SEGSINT a b c d : SegmentsIntersect(a, b, c, d) (non-inclusive)
+  | "SEGSINT" => some do
+      let a ← pt; let b ← pt; let c ← pt; let d ← pt; done
+      pure (crossChecked (smallRing [a, b, c, d]) (showBool (segsInt csF a b c d)) (showBool (segsInt csX a b c d)))
+  -- DOSPLIT hi ring : (hi = the library was built with CLIPPER2_HI_PRECISION) DoSplitOp(outrec, splitOp) for the ring seen from splitOp
+  | "DOSPLIT" => some do
+      let hi ← bool; let r ← path; done
+      let isect := if hi then isectHiF else isectF
+      pure (crossChecked (smallRing r) (showSplitRes (doSplitOp isect adecF r)) (showSplitRes (doSplitOp isect adecX r)))
+  -- FIXSI hi ring : FixSelfIntersects(outrec) for the ring seen from outrec->pts; answer = ring afterwards + split-off rings
+  | "FIXSI" => some do
+      let hi ← bool; let r ← path; done
+      let isect := if hi then isectHiF else isectF
+      let fuel := fsiDriverFuel r.length
+      pure (crossChecked (smallRing r) (showFsi (fixSelfIntersects csF isect adecF fuel r)) (showFsi (fixX isect fuel r)))
+  -- CLEANCOLX hi pc ring : CleanCollinear(outrec) with the modelled FixSelfIntersects
+  | "CLEANCOLX" => some do
+      let hi ← bool; let pc ← bool; let r ← path; done
+      let isect := if hi then isectHiF else isectF
+      let fuel := fsiDriverFuel r.length
+      pure (crossChecked (smallRing r) (showFsi (cleanCollinearG pc (fixSelfIntersects csF isect adecF fuel) r))
+        (showFsi (cleanCollinearX pc isect fuel r)))
+  -- BUILDPATHS hi pc rev rings : the closed branch of BuildPaths64 over outrec_list_ (rings of the outrecs, `0` = no pts)
+  | "BUILDPATHS" => some do
+      let hi ← bool; let pc ← bool; let rev ← bool; let rings ← paths; done
+      let isect := if hi then isectHiF else isectF
+      let n := (rings.map List.length).foldl max 0
+      let fuel := fsiDriverFuel n
+      let wf := 4 * rings.length + 4 * rings.flatten.length + 64
+      let sh : Option (List Path) → String := fun | none => "OUT-OF-FUEL" | some ps => showPaths ps
+      pure (crossChecked (rings.all smallRing)
+        (sh (buildPathsG rev (cleanCollinearG pc (fixSelfIntersects csF isect adecF fuel)) wf rings))
+        (sh (buildPathsX pc rev isect fuel wf rings)))
   | _ => none
 
 end Clipper.Driver.C03
